@@ -24,7 +24,6 @@ package c16
 import (
 	"fmt"
 	"os"
-	"sort"
 	"strconv"
 	"strings"
 	"testing"
@@ -1356,8 +1355,6 @@ func isoList(ts []int64) string {
 	}
 	return "[" + strings.Join(s, " ") + "]"
 }
-
-var _ = sort.Strings
 
 var assumptions = []string{
 	"a WHERE clause is read the way InfluxQL reads it (influxql.ConditionExpr, trusted base): time comparisons anywhere in the tree are promoted to one time range and removed from the condition; the strict boolean reading of the emitted text is reported as a label only",
